@@ -300,6 +300,8 @@ pub struct Mon {
     /// budget is spread over all enabled widths instead of being spent on the first ones.
     width_slice_end: f64,
     widths_seen: usize,
+    light_passes: u64,
+    pass_base: f64,
     drought: u32,
     light_counts: HashMap<(String, usize), u64>,
     width_time_ups: u64,
@@ -417,6 +419,8 @@ impl Mon {
             time_up_flag: false,
             width_slice_end: f64::INFINITY,
             widths_seen: 0,
+            light_passes: 0,
+            pass_base: 0.0,
             drought: 0,
             light_counts: HashMap::new(),
             width_time_ups: 0,
@@ -431,6 +435,7 @@ impl Mon {
         fnv(&mut h, &(bits as u64).to_le_bytes());
         if self.cfg.light > 0.0 {
             fnv(&mut h, &self.cfg.shard.to_le_bytes());
+            fnv(&mut h, &self.light_passes.to_le_bytes());
         }
         crate::rng::Rng::new(self.cfg.seed, h)
     }
@@ -449,7 +454,7 @@ impl Mon {
         }
         // thinning with a bounded drought: after 4 rejections in a row the next candidate is taken, so every
         // directed list of some length contributes (the per-operation decay in `case` bounds the total)
-        let pick = (self.keep_rng.u64() >> 11) as f64 / (1u64 << 53) as f64 <= self.cfg.light || self.drought >= 4;
+        let pick = (self.keep_rng.u64() >> 11) as f64 / (1u64 << 53) as f64 <= self.cfg.light || u64::from(self.drought) >= 4 + 6 * self.light_passes;
         self.drought = if pick { 0 } else { self.drought + 1 };
         pick
     }
@@ -502,10 +507,40 @@ impl Mon {
             if let Some(w) = self.cfg.widths.as_ref() {
                 self.widths_seen += 1;
                 let n = self.light_share(w.len()).max(1);
-                self.width_slice_end = self.cfg.max_seconds * (self.widths_seen.min(n) as f64) / (n as f64);
+                self.begin_width_slice(self.widths_seen.min(n) - 1, n);
             }
         }
         on
+    }
+
+    /// Light lanes: the k-th of n widths of this pass starts now; its slice ends at the k+1-th n-th of what was
+    /// left of the time budget when the pass began.
+    pub fn begin_width_slice(&mut self, k: usize, n: usize) {
+        if self.cfg.light > 0.0 {
+            let left = (self.cfg.max_seconds - self.pass_base).max(0.0);
+            self.width_slice_end = self.pass_base + left * ((k + 1).min(n.max(1)) as f64) / (n.max(1) as f64);
+        }
+    }
+
+    /// Light lanes: when a pass over the workload ended well inside the time budget (thinning and decay
+    /// make passes short), run another one: the random streams, the thinning picks and the depth reached in the
+    /// directed lists all differ from pass to pass. Always false in the native lanes.
+    pub fn another_light_pass(&mut self) -> bool {
+        if self.cfg.light <= 0.0 {
+            return false;
+        }
+        let el = self.start.elapsed().as_secs_f64();
+        if el > 0.7 * self.cfg.max_seconds || self.light_passes >= 11 {
+            return false;
+        }
+        self.light_passes += 1;
+        self.note_add("light_lane_extra_passes", 1);
+        self.pass_base = el;
+        self.widths_seen = 0;
+        self.width_slice_end = f64::INFINITY;
+        self.light_counts.clear();
+        self.drought = 0;
+        true
     }
 
     /// Light lanes split the named widths between the shards of the lane (width i belongs to shard
